@@ -302,14 +302,15 @@ def make_replay(pid, spec, r, f, base):
            '--harness', f['harness'], '--output-format', 'terse'] + [x for x in f.get('flags', [])]
     playback = ''
     out = ''
-    if not f.get('no_playback') and crate != 'incrate':
+    if not f.get('no_playback'):
         rc, out, err, wall, to = _sh(cmd, 1500, cwd=crate_dir, env=dict(spec.get('env', {}), CARGO_TARGET_DIR=target_dir, GK_TIER=tier_of(spec)))
         blocks = re.findall(r'```\n(.*?)```', out, re.S)
         blocks = [b for b in blocks if 'Check for `cover`' not in b]
         if blocks:
             playback = blocks[0]
             short = f['harness'].split('::')[-1]
-            playback = playback.replace(', %s)' % short, ', crate::%s)' % f['harness'])
+            if crate != 'incrate':   # in-crate playback tests live in a child module of the harness module
+                playback = playback.replace(', %s)' % short, ', crate::%s)' % f['harness'])
     found = bool(playback)
     json.dump({'kind': 'kani-harness', 'property': pid, 'unit': r.name, 'crate': crate,
                'harness': f['harness'], 'flags': f.get('flags', []),
@@ -328,13 +329,21 @@ def replay(j):
     target_dir = os.path.join(BUILD, 'kani-' + j['crate'])
     rc_native = None
     if j.get('playback_test'):
-        pg = os.path.join(crate_dir, 'src', 'playback_generated.rs')
+        env = {'CARGO_TARGET_DIR': target_dir}
+        if j['crate'] == 'incrate':
+            inc = os.path.join(VERIF, 'kani', 'incrate')
+            env['VERIF_KANI_DIR'] = inc
+            h = j['harness']
+            pg = os.path.join(inc, 'playback_simple.rs' if '::simple::' in h else 'playback_generic_builder.rs' if '::generic::' in h else 'playback_definition.rs')
+        else:
+            pg = os.path.join(crate_dir, 'src', 'playback_generated.rs')
         keep = open(pg).read()
         try:
             open(pg, 'w').write(j['playback_test'])
-            shutil.copyfile(os.path.join(REPO, 'Cargo.lock'), os.path.join(crate_dir, 'Cargo.lock'))
+            if j['crate'] != 'incrate':
+                shutil.copyfile(os.path.join(REPO, 'Cargo.lock'), os.path.join(crate_dir, 'Cargo.lock'))
             rc, out, err, wall, to = _sh(['cargo', 'kani', 'playback', '-Z', 'concrete-playback', '--', 'kani_concrete_playback'],
-                                         1500, cwd=crate_dir, env={'CARGO_TARGET_DIR': target_dir})
+                                         1500, cwd=crate_dir, env=env)
             txt = out + err
             m = re.search(r'test result: (\w+)\. (\d+) passed; (\d+) failed', txt)
             print('native playback of the counterexample against /repo: %s' % (m.group(0) if m else 'no test result'))
